@@ -324,8 +324,8 @@ def sweep_A(ctx, n, seed_base, with_coq, big=False):
     if not with_coq:
         return True, True
     tie_ok = True
-    for b0 in range(0, len(batch), 60):
-        part = batch[b0:b0 + 60]
+    for b0 in range(0, len(batch), 150):
+        part = batch[b0:b0 + 150]
         res = coq_A('C15_A_%d' % b0, part)
         for (sc, groups, snaps), (m, dcd, ck, h) in zip(part, res):
             m, dcd, ck, h = unopt(m), unopt(dcd), unopt(ck), unopt(h)
